@@ -245,6 +245,66 @@ Proof.
 Qed.
 Print Assumptions C06_connect_uses_credentials_stored_at_connect_time.
 
+(* ---------------------------------------------------------------- (3d) the stream entry points *)
+
+(* AirPlayV1.setup/play_url and AirPlayV2.setup/play_url with stored HAP credentials - for either
+   way the v1 entry points may verify (Gen.v1_mapped): the accessory is USED (ANNOUNCE / SETUP /
+   play sent), and on v2 keys installed, only if verify_credentials returned, i.e. only if the
+   reply proved the stored identity; otherwise the entry point raises and nothing further is sent. *)
+Theorem C06_stream_used_only_if_identity_proved :
+  forall x25519 hkdf dec enc pk_load sig_ok sign v1m v k h c f1 pd f3 pd4,
+  let r := stream_entry x25519 hkdf dec enc pk_load sig_ok sign v1m v k h c f1 pd f3 pd4 in
+  (e_used r = true \/ e_keys r = true ->
+   e_raised r = None /\
+   exists t spub encd shared pt it sg,
+     pairing_data k AirPlay pd = inl t /\ get T_PublicKey t = Some spub /\ get T_EncryptedData t = Some encd /\
+     x25519 (v_priv h) spub = Some shared /\
+     dec (hkdf salt_pv info_pv shared) nonce_m2 encd = Some pt /\
+     read_tlv pt = TOk it /\
+     get T_Identifier it = Some (atv_id c) /\
+     get T_Signature it = Some sg /\
+     sig_ok (ltpk c) (spub ++ atv_id c ++ v_pub h) sg = true) /\
+  (e_used r = false -> exists e, e_raised r = Some e /\ e_keys r = false).
+Proof.
+  intros. subst r. unfold stream_entry.
+  destruct (verify_credentials x25519 hkdf dec enc pk_load sig_ok sign k AirPlay h c f1 pd f3 pd4) as [reply|e] eqn:E; cbn.
+  - split; [|discriminate]. intros _. split; [reflexivity|].
+    assert (K: keys (connect x25519 hkdf dec enc pk_load sig_ok sign k AirPlay h c f1 pd f3 pd4) = true)
+      by (apply connect_keys_iff; now exists reply).
+    exact (C06_trusted_only_if_identity_proved _ _ _ _ _ _ _ _ _ _ _ _ _ _ _ K).
+  - split; [intros [H|H]; discriminate|]. intros _. eexists. split; reflexivity.
+Qed.
+Print Assumptions C06_stream_used_only_if_identity_proved.
+
+(* Where the entry point goes through verify_connection (v2; v1 iff v1_mapped) every reply that
+   is not accepted - no transport fault - surfaces as AuthenticationError ... *)
+Theorem C06_stream_mapped_reject_is_authentication_error :
+  forall x25519 hkdf dec enc pk_load sig_ok sign v k h c pd pd4,
+  e_used (stream_entry x25519 hkdf dec enc pk_load sig_ok sign true v k h c None pd None pd4) = false ->
+  e_raised (stream_entry x25519 hkdf dec enc pk_load sig_ok sign true v k h c None pd None pd4) = Some EAuthentication.
+Proof.
+  intros until pd4. unfold stream_entry.
+  destruct (verify_credentials x25519 hkdf dec enc pk_load sig_ok sign k AirPlay h c None pd None pd4) as [reply|e] eqn:E; cbn; [discriminate|].
+  intros _. destruct v; cbn; f_equal; apply (surface_reply_error AirPlay); exact (verify_credentials_raise_class _ _ _ _ _ _ _ _ _ _ _ _ _ _ E).
+Qed.
+Print Assumptions C06_stream_mapped_reject_is_authentication_error.
+
+(* ... but NOT where v1 calls verify_credentials() bare (the code as it stands when v1_mapped is
+   false): a flipped ciphertext bit surfaces from AirPlayV1.setup/play_url as InvalidTag.  Witness:
+   the tables of the example below. *)
+Theorem C06_stream_v1_unmapped_wrong_exception_refuted :
+  exists x25519 hkdf dec enc pk_load sig_ok sign k h c pd pd4,
+  stream_entry x25519 hkdf dec enc pk_load sig_ok sign false V1 k h c None pd None pd4
+  = {| e_raised := Some EInvalidTag; e_used := false; e_keys := false |}.
+Proof.
+  exists (fun _ _ => Some [9]), (fun _ _ _ => [5]), (fun _ _ _ => None), (fun _ _ _ => []), (fun _ => true), (fun _ _ _ => true), (fun _ _ => None).
+  exists {| chk_error := true; chk_m4 := false |}, {| v_priv := [7]; v_pub := [4] |},
+         {| ltpk := [3]; ltsk := [6]; atv_id := [65]; client_id := [67] |},
+         (write_tlv [(T_PublicKey, [1; 2]); (T_EncryptedData, [43])]), [].
+  vm_compute. reflexivity.
+Qed.
+Print Assumptions C06_stream_v1_unmapped_wrong_exception_refuted.
+
 (* Exception mapping, every class: MRP and Companion (error_handler) give AuthenticationError
    except OSError/timeout -> ConnectionFailedError and BackOffError / NoCredentialsError /
    cancellation unchanged; AirPlay (verify_connection) gives AuthenticationError except
